@@ -1,6 +1,6 @@
 (* C14O driver: the extracted OpenStage.open2 on the cases of harness/src/bin/c14o.rs, with the tail that
    checks/c14o.py:model_cases appends from the implementation's line:
-     pre <fs> <from> <to> <hexfile> CK <0|1> ZT { <frame hex>=<decoded hex> }*
+     pre|prec <fs> <from> <to> <hexfile> CK <0|1> ZT { <frame hex>=<decoded hex> }*
      file <fs> <hexfile> CK <0|1> ZT { .. }*
    CK 1 = the implementation traps on integer overflow (profile Dev), 0 = Release.
    zd = lookup in the table ZT (what the zstd crate returned for that frame); a frame that is not in the table is
@@ -68,7 +68,7 @@ let () = run_lines (fun toks ->
   let out =
     match head with
     | ["file"; fs; b] -> token pf (max_off_of fs) zd (nbytes_of_hex b)
-    | ["pre"; fs; from; upto; b] ->
+    | [("pre" | "prec"); fs; from; upto; b] ->
       let bs = nbytes_of_hex b and mo = max_off_of fs in
       let len = List.length bs in
       let acc = ref [] in
